@@ -147,8 +147,60 @@ func extractClientPkg(p *Pkg, prefix, ctor string) {
 			return true
 		})
 		facts.Bools[prefix+"_cancel_checks_owner"] = own
+		// the entry is inserted into c.pending before the datagram is written
+		var insertPos, writePos token.Pos
+		ast.Inspect(fd, func(n ast.Node) bool {
+			switch x := n.(type) {
+			case *ast.AssignStmt:
+				if len(x.Lhs) == 1 {
+					if ix, ok := x.Lhs[0].(*ast.IndexExpr); ok && types.ExprString(ix.X) == "c.pending" && insertPos == 0 {
+						insertPos = x.Pos()
+					}
+				}
+			case *ast.CallExpr:
+				if types.ExprString(x.Fun) == "c.conn.WriteTo" && writePos == 0 {
+					writePos = x.Pos()
+				}
+			}
+			return true
+		})
+		facts.Bools[prefix+"_register_before_write"] = insertPos != 0 && writePos != 0 && insertPos < writePos
 	} else {
 		miss(prefix + "_cancel_checks_owner")
+		miss(prefix + "_register_before_write")
+	}
+	// Close: once past the CAS guard, close(c.done) and c.wg.Wait() are reached whatever
+	// c.conn.Close() returns (no return statement between them)
+	if fd := p.funcDecl("Client.Close"); fd != nil {
+		var connClose, doneClose, wgWait token.Pos
+		var returns []token.Pos
+		ast.Inspect(fd, func(n ast.Node) bool {
+			switch x := n.(type) {
+			case *ast.CallExpr:
+				switch types.ExprString(x.Fun) {
+				case "c.conn.Close":
+					connClose = x.Pos()
+				case "c.wg.Wait":
+					wgWait = x.Pos()
+				case "close":
+					if len(x.Args) == 1 && types.ExprString(x.Args[0]) == "c.done" {
+						doneClose = x.Pos()
+					}
+				}
+			case *ast.ReturnStmt:
+				returns = append(returns, x.Pos())
+			}
+			return true
+		})
+		ok := connClose != 0 && doneClose != 0 && wgWait != 0 && connClose < doneClose && doneClose < wgWait
+		for _, r := range returns {
+			if r > connClose && r < wgWait {
+				ok = false
+			}
+		}
+		facts.Bools[prefix+"_close_always_wakes"] = ok
+	} else {
+		miss(prefix + "_close_always_wakes")
 	}
 }
 
